@@ -9,7 +9,7 @@ from .. import gen, monitors
 PID = "C14"
 ANCHORS = ["scores.py:Scores.bootstrap_metric", "scores.py:Scores.bootstrap_ci", "scores.py:Scores.bootstrap_sample", "utils.py:bootstrap_ci"]
 RAISES_ARE_VIOLATIONS = True
-DECIDING = {"R-boot": 3500, "M-bci": 500}
+DECIDING = {"R-boot": 2095, "M-bci": 703}
 THOROUGH_EXTRA = ["W2"]
 RULE = (
     "M-bs records every sample produced during a call, M-bci records and judges (stdlib reference) what reached the CI formula. R-boot per "
